@@ -127,3 +127,38 @@ Example C15_ritz_nonvacuous :
   | Some (ws, us) => fl_approx QcF (qq 0 1) ws [qq 0 1; qq 25 1] && Nat.eqb (length us) 2
   | None => false end = true.
 Proof. split; [exact ex4_ritz|split; [exact ex4_upper|vm_compute; reflexivity]]. Qed.
+
+(* ---------------------------------------------------------------------------------------------------------------
+   LINK to C08 (added by the linking round; lemmas in Proofs/LinkExpmEnergy.v).  The ENERGY half of the conserving-solver
+   contract: for the Hermitian branch of expm_krylov over Lanczos, every iteration count m >= 1 (early termination
+   included), a linear self-adjoint map, unimodular phases and an eigh_tridiagonal answer (w, U) with U real k x k,
+   U^T U = I, T U = U diag(w) and (U U^T) e_0 = e_0 ([expm_h_energy_oracles_ok]: eigh_ok /\ eigh_row0 /\ |dexp(dt w_l)| = 1
+   on the call actually issued):  ||x'|| = ||v||  AND  <x'|A x'> = <v|A v>.
+   (V^H A V = T exactly by C14_lanczos_tridiag; no invariance of the Krylov space is needed.) *)
+From PT Require Import Proofs.LinkExpmEnergy Proofs.LinkExamples.
+Theorem C15_expm_hermitian_energy :
+  forall (F : ofield) (n : nat) (dexp : Cx F -> Cx F) (Afunc : list (Cx F) -> list (Cx F)),
+  maps_len F n Afunc -> linear F n Afunc ->
+  forall (dnorm : list (Cx F) -> F) (small : F -> bool) (deigh : list F -> list F -> list F * list (list F))
+         (dexpm : list (list (Cx F)) -> list (list (Cx F))),
+  self_adjoint F n Afunc -> small_sound F small ->
+  forall (v : list (Cx F)) (dt : Cx F) (m : nat),
+  length v = n -> v <> vzero n -> 1 <= m ->
+  Forall (norm_ok F) (lanczos_calls F Afunc dnorm small v m) ->
+  expm_h_energy_oracles_ok F dexp Afunc dnorm small deigh v dt m ->
+  exists x, expm_krylov F Afunc dnorm small deigh dexp dexpm v dt m true = Some x /\
+            length x = n /\ nrm2 x = nrm2 v /\ vdot x (Afunc x) = vdot v (Afunc v).
+Proof. exact expm_hermitian_energy. Qed.
+Print Assumptions C15_expm_hermitian_energy.
+
+(* Non-vacuity: the instance of C15_isometry_nonvacuous also meets the energy contract (the eigenvector matrix is a
+   rational rotation, so (U U^T) e_0 = e_0); the energy <v|A v> = 9 is non-zero and the result differs from v *)
+Example C15_energy_nonvacuous :
+  (exists x, expm_krylov QcF (matvec ex_A4) dnorm_ex ex_small deigh_ex dexp_ex (fun M => M) ex_v ex_dt 2 true = Some x /\
+             length x = 3 /\ nrm2 x = nrm2 ex_v /\ vdot x (matvec ex_A4 x) = vdot ex_v (matvec ex_A4 ex_v)) /\
+  match expm_krylov QcF (matvec ex_A4) dnorm_ex ex_small deigh_ex dexp_ex (fun M => M) ex_v ex_dt 2 true with
+  | Some x => vec_approx QcF (qq 0 1) [vdot x (matvec ex_A4 x)] [vdot ex_v (matvec ex_A4 ex_v)] &&
+              negb (vec_approx QcF (qq 0 1) [vdot ex_v (matvec ex_A4 ex_v)] [(qq 0 1, qq 0 1)]) &&
+              negb (vec_approx QcF (qq 0 1) x ex_v)
+  | None => false end = true.
+Proof. split; [exact ex4_energy|vm_compute; reflexivity]. Qed.
